@@ -3,6 +3,7 @@
 #include <osmium/handler.hpp>
 #include <osmium/dynamic_handler.hpp>
 #include <osmium/diff_iterator.hpp>
+#include <osmium/io/input_iterator.hpp>
 #include <osmium/diff_visitor.hpp>
 #include <osmium/diff_handler.hpp>
 #include <osmium/memory/buffer.hpp>
@@ -113,6 +114,41 @@ ENTRY unsigned verif_diff(const unsigned short* types, const long* ids, const un
     for (; it != end; ++it) {
         const DiffObject& d = *it;
         if (k < cap) log[k] = (idx(d.prev()) << 24) | (idx(d.curr()) << 16) | (idx(d.next()) << 8) | (d.first() ? 2U : 0U) | (d.last() ? 1U : 0U);
+        ++k;
+    }
+    return k;
+}
+
+// diff iteration over an input iterator whose source hands out the objects in several buffers (nbuf buffers with cnt[b] objects each);
+// a buffer dies when the last iterator copy pointing into it moves on; objects are identified by their version (= position + 1)
+namespace {
+struct BufferSource {
+    memory::Buffer* bufs; unsigned n; unsigned pos = 0;
+    memory::Buffer read() { if (pos < n) return std::move(bufs[pos++]); return memory::Buffer{}; }
+};
+}
+ENTRY unsigned verif_diff_input(const unsigned short* types, const long* ids, unsigned n, const unsigned* cnt, unsigned nbuf, unsigned* log, unsigned cap) {
+    memory::Buffer bufs[4];
+    unsigned i = 0;
+    for (unsigned b = 0; b < nbuf && b < 4; ++b) {
+        bufs[b] = memory::Buffer{64UL * (cnt[b] ? cnt[b] : 1), memory::Buffer::auto_grow::no};
+        for (unsigned j = 0; j < cnt[b] && i < n; ++j, ++i) {
+            unsigned char* p = bufs[b].reserve_space(64);
+            std::memset(p, 0, 64);
+            auto* o = reinterpret_cast<OSMObject*>(p);
+            o->m_size = 64; o->m_type = static_cast<item_type>(types[i]);
+            o->set_id(ids[i]); o->set_version(i + 1);
+            bufs[b].commit();
+        }
+    }
+    BufferSource src{bufs, nbuf < 4 ? nbuf : 4};
+    using in_it = osmium::io::InputIterator<BufferSource, OSMObject>;
+    unsigned k = 0;
+    auto it = make_diff_iterator(in_it{src}, in_it{});
+    auto end = make_diff_iterator(in_it{}, in_it{});
+    for (; it != end; ++it) {
+        const DiffObject& d = *it;
+        if (k < cap) log[k] = ((d.prev().version() - 1) << 24) | ((d.curr().version() - 1) << 16) | ((d.next().version() - 1) << 8) | (d.first() ? 2U : 0U) | (d.last() ? 1U : 0U);
         ++k;
     }
     return k;
